@@ -548,6 +548,8 @@ class TransferManager(BaseManager):
 
         # Downloads will just get remotely queued
         for download in downloads:
+            if download._state_lock.locked():
+                continue
             if download._remotely_queue_task is not None and not download._remotely_queue_task.done():
                 continue
             download._remotely_queue_task = asyncio.create_task(
@@ -560,6 +562,8 @@ class TransferManager(BaseManager):
 
         # Uploads should be initialized and uploaded if possible
         for upload in uploads[:free_upload_slots]:
+            if upload._state_lock.locked():
+                continue
             if upload._transfer_task is not None and not upload._transfer_task.done():
                 continue
             upload._transfer_task = asyncio.create_task(
